@@ -1,12 +1,23 @@
 """Minimal stand-in for PyICU, used only when no ICU shared library can be found.
-With it `import pyoda_time` works and the invariant culture is available; nothing else."""
+With it `import pyoda_time` works and the invariant culture is available; every ICU-backed feature raises."""
 
 
 class ICUError(Exception):
     pass
 
 
+class _Unavailable:
+    def __init__(self, *a, **k):
+        raise ICUError("ICU is not available in this environment (harness icu stub)")
+
+    def __getattr__(self, name):  # pragma: no cover
+        raise ICUError("ICU is not available in this environment (harness icu stub)")
+
+
 class Locale:
+    def __init__(self, *a, **k):
+        raise ICUError("ICU is not available in this environment (harness icu stub)")
+
     @staticmethod
     def getDefault():
         return None
@@ -14,3 +25,53 @@ class Locale:
     @staticmethod
     def getAvailableLocales():
         return {}
+
+    @staticmethod
+    def getRoot():
+        raise ICUError("ICU is not available in this environment (harness icu stub)")
+
+
+class DateFormatSymbols(_Unavailable):
+    pass
+
+
+class DateTimePatternGenerator(_Unavailable):
+    @staticmethod
+    def createInstance(*a, **k):
+        raise ICUError("ICU is not available in this environment (harness icu stub)")
+
+
+class DateFormat(_Unavailable):
+    kFull = 0
+    kLong = 1
+    kMedium = 2
+    kShort = 3
+    FULL = 0
+    LONG = 1
+    MEDIUM = 2
+    SHORT = 3
+
+    @staticmethod
+    def createDateInstance(*a, **k):
+        raise ICUError("ICU is not available in this environment (harness icu stub)")
+
+    @staticmethod
+    def createTimeInstance(*a, **k):
+        raise ICUError("ICU is not available in this environment (harness icu stub)")
+
+
+class SimpleDateFormat(_Unavailable):
+    pass
+
+
+class Calendar(_Unavailable):
+    @staticmethod
+    def createInstance(*a, **k):
+        raise ICUError("ICU is not available in this environment (harness icu stub)")
+
+
+class DecimalFormatSymbols(_Unavailable):
+    pass
+
+
+ICU_VERSION = "stub"
